@@ -91,6 +91,25 @@ def rule_scan_init(ctx, m, only=None):
             if fname in DEBUG_FUNCS:
                 continue
             for block, i, loop in _all_loops(f.body):
+                # two scans chained by `else` (`if (x > hi) hi = x; else if (x < lo) lo = x;`) update only one accumulator per element: that is the pair of
+                # extrema only when both start from an element of the scanned range, never from -inf / +inf (the first element and every new maximum
+                # would never reach the minimum)
+                for s_ in loop.body:
+                    if s_.k == 'if' and len(s_.els) == 1 and s_.els[0].k == 'if':
+                        class _L:           # the two arms presented as single-scan loops
+                            pass
+                        l1_, l2_ = _L(), _L()
+                        l1_.body = [S_noelse(s_)]
+                        l2_.body = [S_noelse(s_.els[0])]
+                        a1, a2 = _scan_pattern(l1_), _scan_pattern(l2_)
+                        if a1 is not None and a2 is not None and a1[0] != a2[0] and {a1[1], a2[1]} == {'<', '>'}:
+                            inits = [_last_assign_before(block, i, a_[0]) for a_ in (a1, a2)]
+                            n += 1
+                            ok_ch = all(v_ is not None and _same_array(v_, a_[2]) for v_, a_ in zip(inits, (a1, a2)))
+                            ctx.check(ok_ch, 'R-SHD', u.path, fname, 'else-chained extremum scans %s/%s' % (a1[0], a2[0]),
+                                      'the running maximum and minimum are updated in the two arms of one if / else-if, so an element updates at most one of them: that gives '
+                                      'both extrema only when both start from an element of the scanned range; they start from %s and %s'
+                                      % tuple(fmt(v_) if v_ is not None else '?' for v_ in inits), loop.line)
                 sc = _scan_pattern(loop)
                 if sc is None:
                     continue
@@ -148,6 +167,13 @@ def _scan_pattern(loop):
                     if t.k == 'assign' and t.target == b and t.value == a:
                         return b[1], op, a
     return None
+
+
+def S_noelse(s):
+    from ..ir import S
+    d = dict(s.d)
+    d['els'] = []
+    return S('if', s.line, **d)
 
 
 def _last_assign_before(block, i, var):
